@@ -387,6 +387,12 @@ func cmdCheck(args []string) int {
 				}
 				continue
 			}
+			if f, ok := known[ob.Name]; ok {
+				nObl--
+				fmt.Printf("KNOWN-FINDING: property=%s %s\n", prop, f.Text)
+				matched = append(matched, ob.Name)
+				continue
+			}
 			viol++
 			content := map[string]interface{}{"obligation": ob.Name, "clause": ob.Text, "at": ob.Pos, "solver_status": r.Status, "solver": r.Solver, "solver_output": trunc(r.Output, 20000)}
 			confirmed := false
